@@ -4,7 +4,8 @@ import Mimium.Model.CstPrint
 
 * `NItem` / `norm`: the printer's DELIBERATE edits of the token sequence (`normTokens`).  A text leaf of the document is compared
   after normalisation: a comma — the token or the re-created `","` — is erased (the printer re-creates every comma of a list: kept
-  between items, the trailing one dropped unless a comment hangs on it, one added to `(x,)`; `joinListItems` is the exact rule); the
+  between items, the trailing one dropped unless a comment hangs on it; `joinListItems` is the exact rule; the comma of `(x,)` is the
+  token itself); the
   `{` of a block is the literal `"{"` (`brace`) whether it comes from the token or from `allocator.text("{")`; the other literals
   (`" "`, `"/* error */"`) are layout.  Every other token and every comment is `idx i`, its raw token index.
 * `content c d`: the normalised text leaves of a symbolic document; `expected c g`: for every token leaf of the tree, in order, its
@@ -82,7 +83,7 @@ def blockOk (c : Ctx) (st : BlockSt) (ch : Ch) : Bool :=
   | .token ti _ =>
     let k := c.kind ti
     if k == .BlockBegin then
-      !st.inBody && st.body.isEmpty && emp c st.openTrivia && !st.hasOpenTrivia && (triviaItems c (leadingTrivia c ti)).isEmpty
+      !st.inBody && st.body.isEmpty && emp c st.openTrivia && !st.hasOpenTrivia
     else if k == .BlockEnd then st.inBody && (st.hasOpenTrivia || emp c st.openTrivia)
     else st.inBody
   | .node _ _ => st.inBody
@@ -93,9 +94,11 @@ def listOk (c : Ctx) (st : ListSt) (ch : Ch) : Bool :=
   match ch.1 with
   | .token ti _ =>
     let k := c.kind ti
-    if isOpenDelim k then st.items.isEmpty && st.seps.isEmpty && st.current.isNone && emp c st.openDoc && emp c st.closeDoc
+    if isOpenDelim k && st.foundOpen then emp c st.closeDoc && st.seps.length == st.items.length
+    else if isOpenDelim k then st.items.isEmpty && st.seps.isEmpty && st.current.isNone && emp c st.openDoc && emp c st.closeDoc
+    else if isCloseDelim k && st.depth > 0 then st.foundOpen && emp c st.closeDoc && st.seps.length == st.items.length
     else if isCloseDelim k then emp c st.closeDoc
-    else if k == .Comma then st.current.isSome && st.seps.length == st.items.length && emp c st.closeDoc
+    else if k == .Comma && st.depth == 0 then st.current.isSome && st.seps.length == st.items.length && emp c st.closeDoc
     else st.foundOpen && emp c st.closeDoc && st.seps.length == st.items.length
   | .node _ _ => st.foundOpen && emp c st.closeDoc && st.seps.length == st.items.length
 
@@ -175,12 +178,7 @@ def pfKeeps (c : Ctx) : PF → List Ch → Bool
   | .lambdaExpr, cs => allOk (lamStep c) (lamOk c) {} cs && !(cs.foldl (lamStep c) {}).inParams
   | .ifExpr, cs => allOk (ifStep c) (ifOk c) {} cs
   | .blockExpr, cs => allOk (blockStep c) (blockOk c) {} cs && !(cs.foldl (blockStep c) {}).inBody
-  | .tupleExpr, cs =>
-    if tupleCount c cs == (1, 1) then
-      cs.all fun ch => match ch.1 with
-        | .token ti _ => c.kind ti != .Comma || (tokItems c ti).isEmpty
-        | .node _ _ => true
-    else allOk (listStep c) (listOk c) {} cs
+  | .tupleExpr, cs => tupleCount c cs == (1, 1) || allOk (listStep c) (listOk c) {} cs
   | .groupedList, cs => allOk (listStep c) (listOk c) {} cs
   | .recordExpr, cs => allOk (recStep c) (recOk c) {} cs && !(cs.foldl (recStep c) {}).inBody
   | .macroExpansion, cs => allOk (macStep c) (macOk c) {} cs
